@@ -63,8 +63,9 @@ impl<M: MemBuilder> AnyVecRaw<M> {
         // 1. construct empty "prototype"
         let mut cloned = self.clone_empty();
 
-        // 2. allocate
-        cloned.mem.expand(self.len);
+        // 2. allocate (only if capacity is insufficient,
+        //    non-resizable Mem can not expand at all)
+        cloned.reserve(self.len);
 
         // 3. copy/clone
         {
